@@ -133,6 +133,17 @@ pub fn row_hdr(row: u32) -> Vec<u8> {
 }
 
 pub fn sheet_bin(s: &BSheet) -> Vec<u8> {
+    if s.dir == "chartsheets" {
+        // MS-XLSB 2.1.7.7 chart sheet part: BrtBeginSheet [BrtCsProp] CSVIEWS [BrtDrawing] BrtEndSheet - no dimension, no sheet data
+        let mut o = rec(0x81, &[]);
+        o.extend(rec(0x28C, &[0u8; 7])); // BrtCsProp: flags(2) + BrtColor(8)? kept short: readers skip it by its length
+        o.extend(rec(0x8D, &[])); // BrtBeginCsViews
+        o.extend(rec(0x8B, &[0u8; 12])); // BrtBeginCsView
+        o.extend(rec(0x8C, &[])); // BrtEndCsView
+        o.extend(rec(0x8E, &[])); // BrtEndCsViews
+        o.extend(rec(0x82, &[])); // BrtEndSheet
+        return o;
+    }
     let mut o = rec(0x81, &[]);
     if s.preamble { let mut d = vec![0xC9, 0x04, 0x02]; d.extend([0u8; 20]); o.extend(rec(0x93, &d[..23])); }
     let cells: Vec<(u32, u32)> = s.items.iter().filter_map(|i| if let BItem::Cell { row, col, .. } = i { Some((*row, *col)) } else { None }).collect();
